@@ -89,6 +89,7 @@ func extras(g *mon.Rand) map[string][]byte {
 }
 
 var nCase int
+var reusedSigner = &integrityblock.IntegrityBlockSigner{}
 
 func main() { mon.Main("C07", run) }
 
@@ -153,7 +154,12 @@ func run(r *mon.Run) {
 			}
 			before := len(ib.SignatureStack)
 			// one signer object for the whole sequence in half of the cases, a fresh one per operation otherwise
-			if ibs == nil || i%2 == 1 {
+			switch {
+			case i%4 == 3:
+				// one signer object reused across FILES: its fields are re-assigned for every file
+				ibs = reusedSigner
+				ibs.WebBundleHash, ibs.IntegrityBlock = hash, ib
+			case ibs == nil || i%2 == 1:
 				ibs = &integrityblock.IntegrityBlockSigner{WebBundleHash: hash, IntegrityBlock: ib}
 			}
 			ibs.SigningStrategy = st
